@@ -120,7 +120,11 @@ func (Sequential) Run(c choice.Chooser, opt sim.Options) (res sim.Result) {
 	}
 	branching, rereads := 0, 0
 	cellSeen := map[string]bool{}
-	nOps := 4 + c.Intn("ops", 36)
+	maxOps := 36
+	if opt.Tier == "thorough" {
+		maxOps = 90 // deeper bounds
+	}
+	nOps := 4 + c.Intn("ops", maxOps)
 	for k := 0; k < nOps; k++ {
 		res.Steps++
 		ri := pickSlot(c, pool)
